@@ -126,6 +126,7 @@ type RValue struct {
 	v     Value // the value (for non-addressable) ...
 	addr  *Ptr  // ... or its address (addressable / settable)
 	valid bool
+	ro    bool // obtained through an unexported field
 }
 
 func isNilValue(v Value) bool {
